@@ -1,22 +1,33 @@
 """C14 translator: regenerate the transport parser tables, the dispatch of create_transport and the
-constructor signatures it feeds from $QMI_REPO/qmi/core/transport.py into coq/gen/C14Tables.v.
+constructor signatures it feeds into coq/gen/C14Tables.v, from the tree under test ($QMI_REPO).
 
-Fail-closed: every construct outside the shapes recognised below raises TranslationError; the
-caller reports that as a broken tie.  Nothing is imported from the repository: python `ast` only.
+What is read, and from where (robust against behaviour-preserving rewrites of the source text):
 
-Recognised shapes
-  * module level   NAME = TransportDescriptorParser("iface", [("p", (TYPE, BOOL)), ...], {"k": (TYPE, BOOL), ...})
-                   with TYPE one of the names str/int/float/bool and BOOL a literal;
-  * create_transport(transport_descriptor, default_attributes): docstring, then one if/elif chain;
-       test   NAME.match_interface(transport_descriptor)
-       body   attributes = NAME.parse_parameter_strings(transport_descriptor, default_attributes)
-              then  return CLS(**attributes)
-              or    if sys.platform.lower().startswith("win"): <windows branch> else: <branch>
-                    where a branch is [from MODULE import CLS] + (return CLS(**attributes) | raise QMI_TransportDescriptorException(...))
-       final else: raise QMI_TransportDescriptorException(...)
-     The non-Windows branch is the one translated (the harness asserts it runs on such a platform).
-  * CLS.__init__(self, a, b=<literal or class-level constant>, ...) without *args / **kwargs / keyword-only.
-  * QMI_Context.DEFAULT_UDP_RESPONDER_PORT = <int literal> in qmi/core/context.py.
+  * the parser tables           - from the LIVE objects: every module-level instance of
+                                  TransportDescriptorParser in qmi.core.transport (interface name,
+                                  positional specs, keyword specs with type and required flag);
+  * constructor signatures      - inspect.signature of the live classes;
+  * QMI_Context.DEFAULT_UDP_RESPONDER_PORT - the live attribute;
+  * which parser and which class create_transport uses for an interface - found BEHAVIOURALLY: the real
+                                  create_transport is called on "<interface>:x" while every parser's
+                                  parse_parameter_strings is replaced by a recorder returning {} and
+                                  every QMI_Transport subclass's __init__ by a recorder that raises a
+                                  private BaseException; outcome = (parser asked, class constructed) or
+                                  QMI_TransportDescriptorException (interface not available here).
+  No syntactic shape of create_transport, of the table definitions or of any helper is demanded.
+
+Keyword tables and constructor signatures are emitted in NAME order (they are only ever looked up by
+name, their order in the source carries no meaning); positionals keep their order (it is the meaning).
+
+Fail-closed (TranslationError = broken tie) only where the live view cannot be expressed in the model:
+a parameter type other than str/int/float/bool, a non-ASCII/odd name, a constructor with *args /
+**kwargs / keyword-only parameters or a default that is not None/bool/int/float/str, a constructed
+class the model has no validation for, a probe that ends in anything but the two outcomes above.
+
+The older purely syntactic reader (python ast) is kept as `translate_syntax`; it tolerates statements
+that cannot affect the tables (logging calls, docstrings, pass, assert, bare annotations) around and
+inside the dispatch and `if ...: return` sequences as well as elif chains.  It is used only as an
+informational cross-check (`syntax_crosscheck`), never as a verdict.
 """
 import ast
 import os
@@ -182,27 +193,45 @@ def _is_win_test(t):
         return False
 
 
+def _harmless(st):
+    """statements that cannot change which parser/class is used: docstrings, logging, pass, assert, bare annotations"""
+    if isinstance(st, (ast.Pass, ast.Assert)):
+        return True
+    if isinstance(st, ast.AnnAssign) and st.value is None:
+        return True
+    if isinstance(st, ast.Expr):
+        v = st.value
+        if isinstance(v, ast.Constant):
+            return True
+        if isinstance(v, ast.Call):
+            f = v.func
+            while isinstance(f, ast.Attribute):
+                f = f.value
+            return isinstance(f, ast.Name) and f.id in ("_logger", "logging", "logger", "warnings")
+    return False
+
+
+def _clean(stmts):
+    return [s for s in stmts if not _harmless(s)]
+
+
 def _dispatch(fn):
     a = fn.args
     if [x.arg for x in a.args] != ["transport_descriptor", "default_attributes"] or a.vararg or a.kwarg \
             or a.kwonlyargs or a.posonlyargs or fn.decorator_list:
         bail(fn, "create_transport signature changed")
-    body = list(fn.body)
-    if body and isinstance(body[0], ast.Expr) and isinstance(body[0].value, ast.Constant) \
-            and isinstance(body[0].value.value, str):
-        body.pop(0)
-    if len(body) != 1 or not isinstance(body[0], ast.If):
-        bail(fn, "create_transport body is not a single if/elif chain")
-    node = body[0]
+    stmts = _clean(fn.body)
     out = []
-    while True:
+    # an if/elif chain, or a sequence of `if ...: ... return`, or a mix; then the final raise
+    while stmts and isinstance(stmts[0], ast.If):
+        node = stmts[0]
         t = node.test
         if not (isinstance(t, ast.Call) and isinstance(t.func, ast.Attribute) and t.func.attr == "match_interface"
                 and isinstance(t.func.value, ast.Name) and len(t.args) == 1 and not t.keywords
                 and _is_name(t.args[0], "transport_descriptor")):
             bail(node, "unrecognised dispatch test")
         pname = t.func.value.id
-        b = list(node.body)
+        b = _clean(node.body)
         if not b:
             bail(node, "empty branch")
         s0 = b.pop(0)
@@ -217,27 +246,29 @@ def _dispatch(fn):
         if len(b) == 1 and isinstance(b[0], ast.If):
             if not _is_win_test(b[0].test) or not b[0].orelse:
                 bail(b[0], "unrecognised platform test")
-            win = _branch(b[0].body, b[0])
-            other = _branch(b[0].orelse, b[0])
+            win = _branch(_clean(b[0].body), b[0])
+            other = _branch(_clean(b[0].orelse), b[0])
         else:
             win = other = _branch(b, node)
         out.append((pname, other, win))
-        if len(node.orelse) == 1 and isinstance(node.orelse[0], ast.If):
-            node = node.orelse[0]
-            continue
-        if _branch(node.orelse, node)[0] != "raise":
-            bail(node, "final else of create_transport must raise QMI_TransportDescriptorException")
-        break
+        if node.orelse:
+            if len(stmts) > 1:
+                bail(stmts[1], "statements after an if/else in create_transport")
+            stmts = _clean(node.orelse)
+        else:
+            stmts = stmts[1:]
+    if not out or _branch(stmts, fn)[0] != "raise":
+        bail(fn, "create_transport does not end in raise QMI_TransportDescriptorException")
     return out
 
 
 def _classes_of(path):
-    with open(path, encoding="utf-8") as f:
-        tree = ast.parse(f.read(), path)
+    import alpha   # the text as the harness sees it (private names renamed back when the tree renamed them consistently)
+    tree = ast.parse(alpha.source_text(path), path)
     return {n.name: n for n in tree.body if isinstance(n, ast.ClassDef)}, tree
 
 
-def translate(repo):
+def translate_syntax(repo):
     core = os.path.join(repo, "qmi", "core")
     classes, tree = _classes_of(os.path.join(core, "transport.py"))
     tables = {}
@@ -303,6 +334,190 @@ def translate(repo):
     return {"entries": entries, "responder_port": rp}
 
 
+# ---- live view ------------------------------------------------------------------------------
+LIVE_TYPES = {str: "TStr", int: "TInt", float: "TFloat", bool: "TBool"}
+_MISSING = object()
+
+
+class _Probe(BaseException):
+    """raised by the recording constructors; BaseException so that no `except Exception` swallows it"""
+
+
+def _live_table(name, p):
+    try:
+        iface, pos, kw = p.interface, list(p._positionals), dict(p._keywords)
+    except Exception as e:  # noqa
+        raise TranslationError("parser %s: cannot read interface/_positionals/_keywords (%s)" % (name, e))
+
+    def spec(n, s, where):
+        if not (isinstance(s, tuple) and len(s) == 2 and type(s[1]) is bool):
+            raise TranslationError("parser %s: %s spec of %r is not (type, required): %r" % (name, where, n, s))
+        if s[0] not in LIVE_TYPES:
+            raise TranslationError("parser %s: %s %r has a type the model does not know: %r" % (name, where, n, s[0]))
+        return (_name_ok(n, None), LIVE_TYPES[s[0]], s[1])
+    out_pos = []
+    for item in pos:
+        if not (isinstance(item, tuple) and len(item) == 2):
+            raise TranslationError("parser %s: positional entry %r is not (name, spec)" % (name, item))
+        out_pos.append(spec(item[0], item[1], "positional"))
+    out_kw = sorted(spec(n, s, "keyword") for n, s in kw.items())
+    return {"iface": _name_ok(iface, None), "pos": out_pos, "kw": out_kw}
+
+
+def _all_subclasses(c):
+    out, todo = [], [c]
+    while todo:
+        x = todo.pop()
+        for s in x.__subclasses__():
+            if s not in out:
+                out.append(s)
+                todo.append(s)
+    return out
+
+
+def _live_ctor(cls):
+    import inspect
+    try:
+        sig = inspect.signature(cls.__init__)
+    except (TypeError, ValueError) as e:
+        raise TranslationError("cannot read the signature of %s.__init__: %s" % (cls.__name__, e))
+    params = list(sig.parameters.values())[1:]
+    out = []
+    for q in params:
+        if q.kind is not inspect.Parameter.POSITIONAL_OR_KEYWORD:
+            raise TranslationError("%s.__init__ has a %s parameter (%s)" % (cls.__name__, q.kind, q.name))
+        if q.default is inspect.Parameter.empty:
+            out.append((_name_ok(q.name, None), None))
+        else:
+            v = q.default
+            if not (v is None or type(v) in (int, float, str, bool)) or (isinstance(v, str) and not v.isascii()):
+                raise TranslationError("%s.__init__(%s=%r): default of unsupported type" % (cls.__name__, q.name, v))
+            out.append((_name_ok(q.name, None), ("some", v)))
+    return sorted(out, key=lambda x: x[0])
+
+
+def _probe_dispatch(T, parsers, exc_cls):
+    """-> {interface: (parser name or None, class or None)} for every interface some parser claims"""
+    classes = _all_subclasses(T.QMI_Transport)
+    saved = {}
+    asked = []
+
+    def recorder_init(self, *a, **k):
+        raise _Probe(type(self), a, k)
+    result = {}
+    try:
+        for c in classes:
+            saved[c] = c.__dict__.get("__init__", _MISSING)
+            c.__init__ = recorder_init
+        for name, p in parsers:
+            def mk(name):
+                def parse_parameter_strings(*a, **k):
+                    asked.append(name)
+                    return {}
+                return parse_parameter_strings
+            p.parse_parameter_strings = mk(name)      # instance attribute shadows the method
+        for iface in dict.fromkeys(p.interface for _, p in parsers):
+            del asked[:]
+            try:
+                r = T.create_transport(iface + ":x", None)
+            except _Probe as e:
+                cls, a, k = e.args
+                if a or k:
+                    raise TranslationError("create_transport(%r): constructor got arguments %r %r from an empty "
+                                           "attribute dict" % (iface, a, k))
+                outcome = cls
+            except exc_cls:
+                outcome = None
+            except BaseException as e:  # noqa
+                raise TranslationError("create_transport(%r:x) under the dispatch probe raised %s: %s"
+                                       % (iface, type(e).__name__, e))
+            else:
+                raise TranslationError("create_transport(%r:x) under the dispatch probe returned %r without "
+                                       "constructing a QMI_Transport" % (iface, r))
+            if len(asked) > 1:
+                raise TranslationError("create_transport(%r:x) asked several parsers: %s" % (iface, asked))
+            if outcome is not None and not asked:
+                raise TranslationError("create_transport(%r:x) constructed %s without asking a parser"
+                                       % (iface, outcome.__name__))
+            result[iface] = (asked[0] if asked else None, outcome)
+    finally:
+        for _, p in parsers:
+            p.__dict__.pop("parse_parameter_strings", None)
+        for c, old in saved.items():
+            if old is _MISSING:
+                try:
+                    del c.__init__
+                except AttributeError:
+                    pass
+            else:
+                c.__init__ = old
+    return result
+
+
+def translate(repo):
+    """The live view of the tree under test (which must be the one `import qmi` resolves to)."""
+    import importlib
+    try:
+        T = importlib.import_module("qmi.core.transport")
+        ctx = importlib.import_module("qmi.core.context")
+        exc = importlib.import_module("qmi.core.exceptions").QMI_TransportDescriptorException
+    except Exception as e:  # noqa
+        raise TranslationError("cannot import qmi.core.transport: %s: %s" % (type(e).__name__, e))
+    if not os.path.realpath(T.__file__).startswith(os.path.realpath(repo) + os.sep):
+        raise TranslationError("qmi.core.transport is loaded from %s, not from %s" % (T.__file__, repo))
+    for m in ("qmi.core.transport_usbtmc_pyusb",):     # classes create_transport imports lazily
+        try:
+            importlib.import_module(m)
+        except Exception:  # noqa
+            pass
+    P = getattr(T, "TransportDescriptorParser", None)
+    if not isinstance(P, type) or not hasattr(T, "create_transport") or not hasattr(T, "QMI_Transport"):
+        raise TranslationError("TransportDescriptorParser / create_transport / QMI_Transport not found")
+    parsers = [(n, o) for n, o in vars(T).items() if isinstance(o, P)]
+    if not parsers:
+        raise TranslationError("no TransportDescriptorParser instance at module level")
+    tables = {n: _live_table(n, o) for n, o in parsers}
+    rp = getattr(getattr(ctx, "QMI_Context", None), "DEFAULT_UDP_RESPONDER_PORT", None)
+    if type(rp) is not int:
+        raise TranslationError("QMI_Context.DEFAULT_UDP_RESPONDER_PORT is not an int")
+    disp = _probe_dispatch(T, parsers, exc)
+    entries, undispatched = [], []
+    by_iface = {}
+    for n, o in parsers:
+        by_iface.setdefault(o.interface, n)     # the first parser claiming an interface (module order)
+    for iface, (pname, cls) in disp.items():
+        pname = pname or by_iface[iface]
+        if cls is None:
+            kind, ctor, clsname = "KUnavailable", [], None
+        else:
+            if cls.__name__ not in KINDS:
+                raise TranslationError("create_transport constructs class %s, which the model has no validation for"
+                                       % cls.__name__)
+            kind, ctor, clsname = KINDS[cls.__name__], _live_ctor(cls), cls.__name__
+        entries.append({"parser": pname, "table": tables[pname], "kind": kind, "class": clsname, "ctor": ctor})
+    used = {e["parser"] for e in entries}
+    extra = [{"parser": n, "table": tables[n]} for n, _ in parsers if n not in used]
+    return {"entries": entries, "responder_port": rp, "undispatched": extra}
+
+
+def _view(tr):
+    return {e["table"]["iface"]: (e["table"]["pos"] and [list(x) for x in e["table"]["pos"]],
+                                   sorted(list(x) for x in e["table"]["kw"]), e["kind"],
+                                   sorted((n, None if d is None else d[1]) for n, d in e["ctor"]))
+            for e in tr["entries"]}
+
+
+def syntax_crosscheck(tr, repo):
+    """Informational: does the purely syntactic reading of transport.py give the same tables/dispatch?"""
+    try:
+        s = translate_syntax(repo)
+    except (TranslationError, SyntaxError, OSError) as e:
+        return "not available (source shape not recognised by the syntactic reader: %s)" % e
+    a, b = _view(tr), _view(s)
+    return "agrees" if a == b else "differs: live %r / syntactic %r" % (
+        {k: v for k, v in a.items() if b.get(k) != v}, {k: v for k, v in b.items() if a.get(k) != v})
+
+
 # ---- Coq emission ---------------------------------------------------------------------------
 
 def _cstr(s):
@@ -330,8 +545,9 @@ def ident(iface):
 
 
 def emit(tr, repo, with_proofs=True, with_wf=True):
-    L = ["(* GENERATED on every run by harness/translators/t_c14_tables.py from",
-         "   %s/qmi/core/transport.py -- do not edit, never committed. *)" % repo,
+    L = ["(* GENERATED on every run by harness/translators/t_c14_tables.py from the live parser objects,",
+         "   constructor signatures and dispatch of %s/qmi/core/transport.py -- do not edit, never committed." % repo,
+         "   Keyword tables and constructor signatures are in name order. *)",
          "Require Import QV.C14.Model%s." % (" QV.C14.Proofs" if with_proofs else ""),
          "Open Scope N_scope.", ""]
     obligations = []
@@ -355,7 +571,16 @@ def emit(tr, repo, with_proofs=True, with_wf=True):
             L.append("Lemma C14gen_wf_%s : entry_wf ent_%s = true.\nProof. vm_compute. reflexivity. Qed." % (i, i))
             obligations.append("C14gen_wf_%s" % i)
         L.append("")
-    L.append("(* dispatch order of create_transport *)")
+    for x in tr.get("undispatched", []):
+        t = x["table"]
+        i = ident(t["iface"])
+        while i in seen:
+            i += "'"
+        seen.add(i)
+        L.append("(* %s: no interface of create_transport leads to this parser *)" % x["parser"])
+        L.append("Definition tbl_%s : table := mkTable %s\n  [%s]\n  [%s]." % (
+            i, _cstr(t["iface"]), "; ".join(_cparam(p) for p in t["pos"]), "; ".join(_cparam(p) for p in t["kw"])))
+    L.append("(* the interfaces create_transport serves *)")
     L.append("Definition entries : list entry := [%s]." % "; ".join("ent_" + n for n in names))
     if with_wf:
         L.append("Lemma C14gen_entries_wf : entries_wf entries = true.\nProof. vm_compute. reflexivity. Qed.")
